@@ -114,8 +114,8 @@ class Model:
                 raise RuntimeError("model driver protocol: " + a[:200])
             self.p.stdin.flush()
 
-    def read_many(self, text):
-        return self._converse("R " + cps(text) + "\n")
+    def read_many(self, text, skip_shebang=False):
+        return self._converse(("B " if skip_shebang else "R ") + cps(text) + "\n")
 
     def rd_fuel(self, fuel, text):
         return self._converse("F %d %s\n" % (fuel, cps(text)))
@@ -169,26 +169,41 @@ def canon_impl(m):
     return ["?" + t, repr(m), [], pos]
 
 
+MAX_TIMEOUTS = 2
+
+
+class TooManyTimeouts(Exception):
+    """the implementation has failed to terminate MAX_TIMEOUTS times: stop generating"""
+
+
 class Impl:
     def __init__(self):
+        self.timeouts = 0
         self.hy = vlib.use_repo_in_process()
         from hy.reader.exceptions import LexException, PrematureEndOfInput
         self.Lex, self.Prem = LexException, PrematureEndOfInput
         signal.signal(signal.SIGALRM, _alarm)
 
-    def read_many(self, text, watchdog=20):
+    def read_many(self, text, watchdog=5, reader=None, skip_shebang=False):
         """-> ("Ok", [models]) | ("Lex", msg) | ("Premature", msg) | ("Other", class name, msg) | ("Timeout",)
-        A timeout is reported only if it happens twice in a row (the machine may be busy)."""
-        r = self._read_many(text, watchdog)
+        A timeout is reported only if it happens twice in a row, the second time with four times the
+        allowance (the machine may be busy).  After MAX_TIMEOUTS confirmed timeouts the next call raises
+        TooManyTimeouts: a reader that does not terminate has been shown, and every further hang would
+        cost the full allowance again."""
+        if self.timeouts >= MAX_TIMEOUTS:
+            raise TooManyTimeouts()
+        r = self._read_many(text, watchdog, reader, skip_shebang)
         if r[0] == "Timeout":
-            r = self._read_many(text, 3 * watchdog)
+            r = self._read_many(text, 4 * watchdog, reader, skip_shebang)
+            if r[0] == "Timeout":
+                self.timeouts += 1
         return r
 
-    def _read_many(self, text, watchdog):
+    def _read_many(self, text, watchdog, reader=None, skip_shebang=False):
         signal.alarm(watchdog)
         try:
             try:
-                ms = list(self.hy.read_many(text))
+                ms = list(self.hy.read_many(text, reader=reader, skip_shebang=skip_shebang))
                 return ("Ok", ms)
             except self.Prem as e:
                 return ("Premature", str(getattr(e, "msg", e)))
